@@ -4,8 +4,8 @@
     Three interpreters: steady state (Ignore classes), finite time path (Displace with both paddings), and the
     derivative accumulator (AccumulatedDerivative with its dict semantics and sparsity threshold).
     Also: division (every scalar / accumulator combination of __truediv__ / __rtruediv__) and powers with a positive
-    integer exponent (__pow__ with a scalar).  Real exponents, scalar ** expr, expr ** expr (logarithms) and applied
-    functions are outside this model (oracle only). *)
+    integer exponent (__pow__ with a scalar), and applied scalar functions e.apply(f) with the derivative the accumulator uses supplied next
+    to f.  Real exponents, scalar ** expr and expr ** expr are outside this model (oracle only). *)
 From Coq Require Import ZArith Bool List.
 From SSJ Require Import Lib.Sums Model.Shift Model.Sparse Gen.MultiplyBasis Gen.ComputeL.
 Import ListNotations.
@@ -19,7 +19,8 @@ Variable tiny : R -> bool.
 Inductive expr :=
 | EVar (x : nat) | ENum (c : R) | EShift (k : Z) (e : expr) | ESs (e : expr)
 | ENeg (e : expr) | EAdd (a b : expr) | ESub (a b : expr) | EMul (a b : expr)
-| EDiv (a b : expr) | EPow (a : expr) (n : nat).      (* EPow a n  is  a ** (n+1) *)
+| EDiv (a b : expr) | EPow (a : expr) (n : nat)      (* EPow a n  is  a ** (n+1) *)
+| EApp (f df : R -> R) (e : expr).                     (* e.apply(f): f applied pointwise; df is the derivative the accumulator uses (1/x for np.log, otherwise the symmetric difference quotient of f) *)
 
 Fixpoint rpow (x : R) (n : nat) : R := match n with O => rI | S n' => rmul x (rpow x n') end.
 Fixpoint nat_r (n : nat) : R := match n with O => rO | S n' => radd rI (nat_r n') end.
@@ -31,6 +32,7 @@ Fixpoint eval_ss (ss : nat -> R) (e : expr) : R :=
   | ENeg e => ropp (eval_ss ss e) | EAdd a b => radd (eval_ss ss a) (eval_ss ss b)
   | ESub a b => rsub (eval_ss ss a) (eval_ss ss b) | EMul a b => rmul (eval_ss ss a) (eval_ss ss b)
   | EDiv a b => rdiv (eval_ss ss a) (eval_ss ss b) | EPow a n => rpow (eval_ss ss a) (S n)
+  | EApp f _ e => f (eval_ss ss e)
   end.
 
 (** value of an expression at the INITIAL steady state, as carried by Displace.ss_initial: inputs at their initial
@@ -41,6 +43,7 @@ Fixpoint eval_ssi (ss ssi : nat -> R) (e : expr) : R :=
   | ENeg e => ropp (eval_ssi ss ssi e) | EAdd a b => radd (eval_ssi ss ssi a) (eval_ssi ss ssi b)
   | ESub a b => rsub (eval_ssi ss ssi a) (eval_ssi ss ssi b) | EMul a b => rmul (eval_ssi ss ssi a) (eval_ssi ss ssi b)
   | EDiv a b => rdiv (eval_ssi ss ssi a) (eval_ssi ss ssi b) | EPow a n => rpow (eval_ssi ss ssi a) (S n)
+  | EApp f _ e => f (eval_ssi ss ssi e)
   end.
 
 (** time-path evaluation: Displace.__call__(k) pads with the expression's initial steady-state value before
@@ -62,6 +65,7 @@ Fixpoint eval_td (T : option Z) (ss ssi : nat -> R) (env : nat -> Z -> R) (e : e
   | EMul a b => rmul (eval_td T ss ssi env a t) (eval_td T ss ssi env b t)
   | EDiv a b => rdiv (eval_td T ss ssi env a t) (eval_td T ss ssi env b t)
   | EPow a n => rpow (eval_td T ss ssi env a t) (S n)
+  | EApp f _ e => f (eval_td T ss ssi env e t)
   end.
 
 (** the formal (dual-number) derivative of the infinite time-path map at the steady state with respect to
@@ -79,6 +83,7 @@ Fixpoint deriv (ss : nat -> R) (x0 : nat) (s : Z) (e : expr) (t : Z) : R :=
   | EDiv a b => rdiv (rsub (rmul (deriv ss x0 s a t) (eval_ss ss b)) (rmul (eval_ss ss a) (deriv ss x0 s b t)))
                      (rmul (eval_ss ss b) (eval_ss ss b))                                   (* quotient rule *)
   | EPow a n => rmul (rmul (nat_r (S n)) (rpow (eval_ss ss a) n)) (deriv ss x0 s a t)   (* power rule *)
+  | EApp _ df e => rmul (df (eval_ss ss e)) (deriv ss x0 s e t)                          (* chain rule with the supplied derivative *)
   end.
 
 (** the accumulator: values are Ignore constants or AccumulatedDerivative(elements, f_value) *)
@@ -141,6 +146,11 @@ Fixpoint accum (ss : nat -> R) (x0 : nat) (e : expr) : aval :=
       | AConst c => AConst (rpow c (S n))
       | AAcc Sp f => AAcc (el_map (fun x => rmul (rmul (nat_r (S n)) (rpow f n)) x) Sp) (rpow f (S n))
       end
+  | EApp g dg e =>                                       (* Ignore.apply: f(value); AccumulatedDerivative.apply: elements scaled by the derivative at f_value *)
+      match accum ss x0 e with
+      | AConst c => AConst (g c)
+      | AAcc Sp f => AAcc (el_map (fun x => rmul (dg f) x) Sp) (g f)
+      end
   end.
 
 (** SimpleBlock._jacobian keeps the (o, i) entry iff the accumulator is an AccumulatedDerivative with a
@@ -153,7 +163,7 @@ Definition jac_entry (ss : nat -> R) (x0 : nat) (e : expr) : option (sp R) :=
 End SimpleBlk.
 
 Arguments EVar {R}. Arguments ENum {R}. Arguments EShift {R}. Arguments ESs {R}. Arguments ENeg {R}.
-Arguments EAdd {R}. Arguments ESub {R}. Arguments EMul {R}. Arguments EDiv {R}. Arguments EPow {R}.
+Arguments EAdd {R}. Arguments ESub {R}. Arguments EMul {R}. Arguments EDiv {R}. Arguments EPow {R}. Arguments EApp {R}.
 Arguments AConst {R}. Arguments AAcc {R}.
 
 (** Z instance for the correspondence check *)
